@@ -624,9 +624,19 @@ void runC11(Ctx &c)
                 }
                 hh = mix64(hh, hashStr(trace.back().c_str()));
                 c.event("ops");
-                // after every op: all derivative orders on all live objects
-                for (size_t q = 0; q < live.size(); ++q)
-                    checkLive(c, live[q], r, *proto, "after step " + std::to_string(step) + " (" + trace.back() + ") obj" + std::to_string(q));
+                // after most ops: all derivative orders on all live objects.  Not after every op: an evaluation repopulates the
+                // lazy caches, so always checking would hide defects that need "update, then <op> with no evaluation in
+                // between"; the objects are visited in random order for the same reason (who rebuilds a cache first matters
+                // if caches were ever shared)
+                if (r.coin(0.6) || step + 1 == len)
+                {
+                    std::vector<size_t> ord(live.size());
+                    for (size_t q = 0; q < ord.size(); ++q)
+                        ord[q] = q;
+                    r.shuffle(ord);
+                    for (size_t q : ord)
+                        checkLive(c, live[q], r, *proto, "after step " + std::to_string(step) + " (" + trace.back() + ") obj" + std::to_string(q));
+                }
             }
             c.nontrivial(hh);
             if (idx < 1)
